@@ -41,8 +41,60 @@ COPY_CALLS = {'dict', 'list', 'tuple', 'set', 'frozenset', 'sorted', 'copy', 'de
 ALIASED_MUTABLE_ATTRS = {'methods', 'bound_apps', 'resources', 'middlewares', 'converters', 'path_args', 'endpoint_args'}
 
 
+class HelperClosure(object):
+    """``closure(roots)``: the root functions plus the private functions / methods of the package that are referred to
+    (by name: call, attribute load, string) only from inside functions already in the set -- the helpers a function was
+    split into.  A helper nothing refers to any more (the front-end dissolved its calls into the callers) is dead code
+    and counts as part of whatever root is asked about."""
+
+    def __init__(self, repo):
+        self.repo = repo
+        self.refs = {}
+        self.funcs = []
+        for m in repo.all_internal_modules():
+            self.funcs.extend(m.functions.values())
+            for n in ast.walk(m.tree):
+                name = None
+                if isinstance(n, ast.Name) and isinstance(n.ctx, ast.Load):
+                    name = n.id
+                elif isinstance(n, ast.Attribute) and isinstance(n.ctx, ast.Load):
+                    name = n.attr
+                elif isinstance(n, ast.Constant) and isinstance(n.value, str) and n.value.isidentifier():
+                    name = n.value
+                if name is None or not name.startswith('_') or name.startswith('__'):
+                    continue
+                keys = []
+                cur = m.enclosing_function(n)
+                while cur is not None:
+                    f2 = m.func_of_node(cur)
+                    if f2 is not None:
+                        keys.append(f2.key)
+                    cur = m.enclosing_function(cur)
+                self.refs.setdefault(name, []).append(keys or ['%s::<module>' % m.name])
+
+    def closure(self, roots, same_module=True):
+        acc = set(roots)
+        mods = set(k.split('::')[0] for k in roots)
+        changed = True
+        while changed:
+            changed = False
+            for fi in self.funcs:
+                if fi.key in acc or not fi.name.startswith('_') or fi.name.startswith('__'):
+                    continue
+                if same_module and fi.mod.name not in mods:
+                    continue
+                if all(any(k in acc for k in keys) for keys in self.refs.get(fi.name, [])):
+                    acc.add(fi.key)
+                    changed = True
+        return acc
+
+    def referred_from(self, fi, key):
+        return any(key in keys for keys in self.refs.get(fi.name, []))
+
+
 def run(rep):
     repo = rep.repo
+    hc = HelperClosure(repo)
     app, route, core, sinter = repo.mod(APP), repo.mod(ROUTE), repo.mod(CORE), repo.mod(SINTER)
     rep.decide('R11.a binding writes only the new object / copies containers; R11.b add() binds before it mutates; '
                'R11.c running index; R11.d module-level state inventory')
@@ -97,9 +149,10 @@ def run(rep):
     n4 = readonly_params(mm, set(), 'caller list')
     # merge_middlewares: its parameters are re-bound to copies before anything is mutated
     rets = returns_of(mm)
-    mvar = norm(rets[0].value) if rets else None
+    mfresh = effects.fresh_locals(repo, mm) - set(mm.params())
+    returned = set(n.id for r in rets if r.value is not None for n in ast.walk(r.value) if isinstance(n, ast.Name))
     for e in effects.effects_in(mm.node):
-        ok = e.root == mvar
+        ok = e.root in mfresh and e.root in returned
         rep.check('R11.a', fkey(mm, 'mutates only merged'), ok, 'only the freshly built merged list is mutated' if ok else
                   'merge_middlewares mutates %s (a caller-supplied list)' % e.root, core, e.node)
     crf = app.func('cast_to_route_factory')
@@ -164,8 +217,16 @@ def run(rep):
     for attr in ('resources', 'middlewares'):
         copies(ai, attr, 'the caller', app)
     # aliased mutable attributes are never mutated after construction
-    allowed_mut = {('clastic.route', 'Route.__init__'), ('clastic.route', 'BoundRoute.__init__'),
-                   ('clastic.application', 'Application.__init__')}
+    allowed_mut = hc.closure({'clastic.route::Route.__init__', 'clastic.route::BoundRoute.__init__',
+                              'clastic.application::Application.__init__'})
+    _ch = {}
+
+    def ctor_helpers(ci):
+        # private methods a constructor was split into
+        if ci.key not in _ch:
+            init = ci.methods.get('__init__')
+            _ch[ci.key] = hc.closure({init.key}) if init is not None else set()
+        return _ch[ci.key]
     for m in repo.all_internal_modules():
         if m.name.startswith('clastic.middleware') and m.name != CORE or m.name.startswith('clastic.contrib'):
             continue
@@ -173,11 +234,12 @@ def run(rep):
             for e in effects.effects_in(fi.node):
                 ch = e.chain or []
                 hit = [a for a in ALIASED_MUTABLE_ATTRS if a in ch[1:]]
-                if not hit or (e.kind == 'store' and ch[-1] in hit and len(ch) == 2 and ch[0] == 'self' and fi.name == '__init__'):
+                if not hit or (e.kind == 'store' and ch[-1] in hit and len(ch) == 2 and ch[0] == 'self' and
+                               (fi.name == '__init__' or (fi.cls is not None and fi.key in ctor_helpers(fi.cls)))):
                     continue
                 if ch[0] in effects.fresh_locals(repo, fi):
                     continue
-                ok = (m.name, fi.qualname) in allowed_mut and ch[0] == 'self'
+                ok = fi.key in allowed_mut and ch[0] == 'self'
                 rep.check('R11.a', 'mutation::%s::%s' % (fi.key, norm(e.node)[:70]), ok,
                           'constructor-time mutation of the object\'s own container' if ok else
                           '%s mutates .%s of an existing route/application object (shared with everything it was bound into)' % (fi.key, hit[0]),
@@ -311,7 +373,14 @@ def run(rep):
                     continue
                 seen.add(k)
                 ok = k in GLOBAL_WRITERS
-                rep.check('R11.d', 'global-writer::%s::%s::%s' % k, ok, 'inventoried: ' + GLOBAL_WRITERS.get(k, '') if ok else
+                via = None
+                if not ok:
+                    # a private helper reachable only from an inventoried writer of the same object writes on its behalf
+                    for (gm, gq, gg), why in GLOBAL_WRITERS.items():
+                        if gm == m.name and gg == g and fi.key in hc.closure({'%s::%s' % (gm, gq)}) and \
+                                any(f2.key == '%s::%s' % (gm, gq) for f2 in m.functions.values()):
+                            ok, via = True, '%s (through its helper %s)' % (why, fi.qualname)
+                rep.check('R11.d', 'global-writer::%s::%s::%s' % k, ok, 'inventoried: ' + (via or GLOBAL_WRITERS.get(k, '')) if ok else
                           '%s writes module-level state %s, which is not in the inventory: applications in one process would '
                           'share it' % (fi.key, g), m, node)
     for modname, q in sorted(IMPORT_ONLY):
@@ -345,38 +414,10 @@ def run(rep):
                     if fi not in adv:
                         adv.append(fi)
 
-    def referrers(fi):
-        """keys of the functions (or '<module>') holding a load of the function's name, anywhere in the package."""
-        out = []
-        for m in repo.all_internal_modules():
-            for n in ast.walk(m.tree):
-                if (isinstance(n, ast.Name) and n.id == fi.name and isinstance(n.ctx, ast.Load)) or \
-                        (isinstance(n, ast.Attribute) and n.attr == fi.name and isinstance(n.ctx, ast.Load)) or \
-                        (isinstance(n, ast.Constant) and n.value == fi.name):
-                    keys = []
-                    cur = m.enclosing_function(n)
-                    while cur is not None:
-                        f2 = m.func_of_node(cur)
-                        if f2 is not None:
-                            keys.append(f2.key)
-                        cur = m.enclosing_function(cur)
-                    out.append(keys or ['%s::<module>' % m.name])
-        return out
-    accepted = {main}
-    used_from_main = False
-    changed = True
-    while changed:
-        changed = False
-        for fi in adv:
-            if fi.key in accepted or not fi.name.startswith('_') or fi.name.startswith('__') or fi.mod is not app:
-                continue
-            refs = referrers(fi)
-            if all(any(k in accepted for k in keys) for keys in refs):
-                accepted.add(fi.key)
-                changed = True
+    accepted = hc.closure({main})
     keys = [fi.key for fi in adv]
     ok = bool(adv) and all(k in accepted for k in keys) and \
-        (main in keys or any(main in ks for fi in adv if fi.key != main for ks in referrers(fi)))
+        (main in keys or any(hc.referred_from(fi, main) for fi in adv))
     rep.check('R11.d', 'clastic::_REQ_ID_ITER advanced', ok, 'the request-id counter is advanced in _dispatch_wsgi only' if ok else
               'the request-id counter is advanced at %s' % keys, app)
     dp = repo.mod('clastic.meta').func('MetaApplication.__init__')
